@@ -49,12 +49,17 @@ CLAIMED = {
              "place; every IR the real _ast_to_ir can produce is mapped by both backends or is a documented miss that falls back to "
              "the interpreter; __setitem__/__delitem__ leave _compiled_cache empty; at all three call sites an exception while "
              "fetching arguments or running compiled code leads to the interpreter path only. Positional agreement of parameters: "
-             "bounded (IR depth <= 3), labelled.",
-        note="Not decided: that the NumPy expression and the interpreter's verb return equal values for every admitted operand (NumPy "
-             "numeric semantics; no contract in reach). The per-node memo _compiled is not invalidated on rebinding: not an obligation "
-             "(would demand more than the property states), see DESIGN.md.",
-        ref="DESIGN.md section 4 C05",
-        technique=TECH + "; CPython ast of the emitted template as the correspondence oracle; bounded unrolling for positional agreement"),
+             "bounded (IR depth <= 3), labelled. Value level (numpy backend): every template denotes the value of the interpreter's verb "
+             "for that operator on every admitted operand - the template and the verb's decision list (pre-guards, shortcut with its "
+             "guards, generic fold) are read from the real source and compared as terms modulo seven declared NumPy/Python identities; "
+             "scalar variables are admitted by exact type only; the Define verb rebinds through __setitem__ (cache cleared).",
+        note="Not decided: comparisons on object arrays ((l==r)*1 vs vec_fn2/safe_equal), the torch backend's values (torch is not "
+             "installed), the per-node memo _compiled (not invalidated on rebinding: not an obligation, see DESIGN.md). Assumed: the "
+             "NumPy identities I1-I7 of contracts/c05_values.py. Three divergences of the pinned tree were found by these obligations "
+             "and repaired (known_findings.json).",
+        ref="DESIGN.md section 4 C05 and section 8",
+        technique=TECH + "; CPython ast of the emitted template as the correspondence oracle; term equivalence modulo declared NumPy "
+                         "identities for the value level; bounded unrolling for positional agreement"),
     'C12': dict(
         text="Termination of the real lexer and recursive-descent parser for every input string: every while loop has an integer variant "
              "(bounded below, strictly decreasing), the mutual recursion decreases the lexicographic measure (len(t)+1-i, rank), progress "
@@ -121,9 +126,12 @@ CLAIMED = {
         text="Typestate contract on the real Table class: every read of the data frame whose rows flow to a result (and every write of "
              "it outside commit) happens with an empty insert buffer; insert/insertb extend the buffer by exactly the given rows in "
              "order and touch nothing else; commit empties the buffer; .insert validates the column count and routes single rows / "
-             "batches; has_index <=> idx_cols is not None; set_index/reset_index commit first and keep idx_cols consistent.",
-        note="Assumed: pandas and DuckDB semantics (concat order, sort, dedup, upsert, SQL) - the ordering and one-row-per-key sentences "
-             "of the property rest on them and are NOT decided.",
+             "batches; has_index <=> idx_cols is not None; set_index/reset_index commit first and keep idx_cols consistent. Indexed "
+             "tables: Table.commit against the merge specification over abstract frames - never raises, the new frame has one row per "
+             "key (the last inserted of the buffer, else the stored row), is sorted, and holds exactly the stored and buffered keys.",
+        note="Assumed: pandas contracts as stated in contracts/c19_commit.py (intersection, loc selection / aligned assignment raising "
+             "on duplicate labels, isin, duplicated, drop_duplicates(subset), concat, sort_index not stable) and DuckDB; the unindexed "
+             "append order rests on the NumPy concatenate contract; SQL results are NOT decided.",
         ref="DESIGN.md section 4 C19, Appendix A.6"),
     'C13': dict(
         text="Frame codec of the real IPC transport: encode_message(id,m) = id.bytes ++ be32(|p|) ++ p; over a ghost stream and cursor, "
@@ -140,7 +148,9 @@ CLAIMED = {
              "and removes it, an unknown id touches no pending future, a request is answered once under the same id; "
              "_cleanup_pending_responses needs an exception instance unless the table is empty, visits every pending future and leaves "
              "the table empty; every iteration of _run's connection loop runs the cleanup exactly once on every exit path with its "
-             "precondition satisfied, under arbitrary interference at the awaits (running may flip, calls may register futures).",
+             "precondition satisfied, under arbitrary interference at the awaits (running may flip, calls may register futures); "
+             "NetworkClient.call has registered its future under the request id before the request can reach the wire; on every exit "
+             "path execute_server_command has completed the request's result future exactly once (unless the event loop itself refused).",
         note="NOT decided: liveness ('never hangs', prompt failure after loss), the is_open-then-register window between threads, close "
              "racing with calls. Assumed: asyncio run-to-completion between awaits, Future contracts, the C13 transport contracts.",
         ref="DESIGN.md section 4 C14"),
@@ -148,7 +158,8 @@ CLAIMED = {
         text="Monitor reasoning on the real FileCache, sound for every interleaving: the guarded fields are only touched while the lock "
              "is held (an obligation at each access); at every acquire the guarded state is havocked and the monitor invariant G "
              "(accounting == sum of counted entries, 0 <= cur <= max, heap/table consistency, claims carry 0 bytes) assumed, at every "
-             "release G is proved; the source asserts are obligations under that havoc; waits on futures happen with the lock released.",
+             "release G is proved; the source asserts are obligations under that havoc; waits on futures happen with the lock released; "
+             "the writer task clears an entry's writing flag only after the file holds the new contents.",
         note="NOT decided: linearizability of returned values, progress, PandasDataFrameCache's per-file append lock. Assumed: "
              "threading.Lock mutual exclusion; tasks run at any time on other threads; msum lemmas (Lean).",
         ref="DESIGN.md section 4 C18"),
